@@ -1,7 +1,107 @@
-(* C18 -- Graph outputs are syntactically valid for any names (property theorems). *)
-From PV Require Import M_Dot S_Dot S_DotClass.
+(* C18 -- Graph outputs are syntactically valid for any names.
+   Property theorems only: each is closed by [exact] of a lemma and followed by Print Assumptions.
+   DOT: [lex]/[parse] (S_Dot) are an independent lexer and recogniser of the DOT language;
+   [compose_dot] (M_Dot) is the model of ComposeDot, tied to the code by correspondence.
+   callgrind: [decode] (S_Callgrind) is a reference reader; [cg_lines] (M_Callgrind) the model. *)
+From PV Require Import M_Dot S_Dot S_DotClass L_Dot L_Dot2 L_Dot3 L_Dot4.
 Open Scope string_scope.
+Open Scope Z_scope.
 
-Theorem placeholder_example : dot_valid ("digraph " ++ quoted (escape_for_dot "a""b\") ++ " { }") = true.
-Proof. vm_compute. reflexivity. Qed.
-Print Assumptions placeholder_example.
+(* ---------------- escaping ---------------- *)
+(* for ALL strings s: the escaped text between double quotes is exactly one string token,
+   whatever follows *)
+Theorem escape_quoted_is_one_token : forall s rest,
+  lex_go LInit (quoted (escape_for_dot s) ++ rest) =
+  let '(m, t) := lex_go LInit rest in (m, TStr (qview (escape_for_dot s)) :: t).
+Proof. exact escape_quoted_one_token. Qed.
+Print Assumptions escape_quoted_is_one_token.
+
+(* ... and it reads back as s (quote for quote, two backslashes per backslash, \l per newline) *)
+Theorem escape_reads_back_as_input : forall s, escapes_to s (escape_for_dot s) = true.
+Proof. exact escape_reads_back. Qed.
+Print Assumptions escape_reads_back_as_input.
+
+(* tag names (sample labels joined with a literal backslash-n) *)
+Theorem escape_tag_quoted_is_one_token : forall s rest,
+  lex_go LInit (quoted (escape_tag_for_dot s) ++ rest) =
+  let '(m, t) := lex_go LInit rest in (m, TStr (qview (escape_tag_for_dot s)) :: t).
+Proof. exact escape_tag_quoted_one_token. Qed.
+Print Assumptions escape_tag_quoted_is_one_token.
+
+(* the rewriting of function names in node labels (:: and . to line breaks, [...] to an
+   ellipsis) is applied AFTER escaping and keeps the text a valid quoted body *)
+Theorem label_name_rewriting_is_safe : forall short, qsafe (ml_name short) = true.
+Proof. exact ml_name_safe. Qed.
+Print Assumptions label_name_rewriting_is_safe.
+
+(* ---------------- whole documents ---------------- *)
+(* for ALL graphs, titles, legends, tags, attributes: outside the two recorded classes of raw
+   holes (F25: FormatValue results, F26: file / binary name in the node label) and with the
+   caller's own attribute values and the percentage oracle well-formed, the text ComposeDot
+   writes is a syntactically valid DOT document *)
+Theorem dot_well_formed : forall g,
+  in_F25 g = false -> in_F26 g = false ->
+  tab_safe (dg_pct g) = true -> forallb attrs_safe (dg_nodes g) = true -> edge_ids_nonneg g = true ->
+  dot_syntax_ok (compose_dot g) = true.
+Proof.
+  intros g H25 H26 Hp Ha Hi. apply compose_dot_valid; [|exact Hi].
+  unfold holes_safe, in_F25, in_F26 in *.
+  apply Bool.negb_false_iff in H25. apply Bool.negb_false_iff in H26. now rewrite H25, H26, Hp, Ha.
+Qed.
+Print Assumptions dot_well_formed.
+
+(* ... whose edges reference only declared nodes, provided every edge of the graph joins two of
+   its nodes (what graph.New guarantees since the F21 repair; C05's domain) *)
+Theorem dot_edges_declared : forall g,
+  in_F25 g = false -> in_F26 g = false ->
+  tab_safe (dg_pct g) = true -> forallb attrs_safe (dg_nodes g) = true -> edge_ids_nonneg g = true ->
+  edges_within_nodes g = true ->
+  dot_edges_ok (compose_dot g) = true.
+Proof.
+  intros g H25 H26 Hp Ha Hi. apply compose_dot_valid; [|exact Hi].
+  unfold holes_safe, in_F25, in_F26 in *.
+  apply Bool.negb_false_iff in H25. apply Bool.negb_false_iff in H26. now rewrite H25, H26, Hp, Ha.
+Qed.
+Print Assumptions dot_edges_declared.
+
+(* ---------------- the recorded findings: the hypotheses cannot be dropped ---------------- *)
+Definition w_info (file : string) : ninfo :=
+  {| ni_name := "f"; ni_short := "f"; ni_addr := 0; ni_file := file; ni_line := 3; ni_col := 0; ni_obj := "" |}.
+Definition w_node (file : string) : dnode :=
+  {| dn_info := w_info file; dn_flat := 10; dn_cum := 10; dn_attrs := None; dn_tags := []; dn_rootnum := None; dn_hasout := false |}.
+Definition w_graph (file unit : string) (edges : list dedge) : dgraph :=
+  {| dg_title := "t"; dg_url := ""; dg_labels := []; dg_total := 10;
+     dg_fv := [(10, "10" ++ unit)]; dg_pct := [(10, "100%")]; dg_nodes := [w_node file]; dg_edges := edges |}.
+
+(* F25: a FormatValue result (a sample unit holding a double quote) written verbatim *)
+Theorem dot_format_value_hole_refuted :
+  let g := w_graph "main.go" ("a" ++ s_quote ++ "b") [] in
+  in_F25 g = true /\ in_F26 g = false /\ dot_syntax_ok (compose_dot g) = false.
+Proof. vm_compute. repeat split; reflexivity. Qed.
+Print Assumptions dot_format_value_hole_refuted.
+
+(* F26: a file name with a double quote in the node label *)
+Theorem dot_file_name_hole_refuted :
+  let g := w_graph ("di" ++ s_quote ++ "r/fi" ++ s_quote ++ "le.go") "ms" [] in
+  in_F25 g = false /\ in_F26 g = true /\ dot_syntax_ok (compose_dot g) = false.
+Proof. vm_compute. repeat split; reflexivity. Qed.
+Print Assumptions dot_file_name_hole_refuted.
+
+(* an edge to a node that is not in the graph (the shape of the repaired F21) is written as N0 *)
+Theorem dot_dangling_edge_refuted :
+  let g := w_graph "main.go" "ms"
+             [{| de_from := 1; de_to := 0; de_src := w_info "main.go"; de_dst := w_info "x.go"; de_w := 10;
+                 de_inline := false; de_residual := false |}] in
+  holes_safe g = true /\ edges_within_nodes g = false /\
+  dot_syntax_ok (compose_dot g) = true /\ dot_edges_ok (compose_dot g) = false.
+Proof. vm_compute. repeat split; reflexivity. Qed.
+Print Assumptions dot_dangling_edge_refuted.
+
+(* ---------------- non-vacuity ---------------- *)
+Example hypotheses_satisfiable :
+  let g := w_graph "main.go" "ms"
+             [{| de_from := 1; de_to := 1; de_src := w_info "main.go"; de_dst := w_info "main.go"; de_w := 10;
+                 de_inline := true; de_residual := true |}] in
+  in_F25 g = false /\ in_F26 g = false /\ tab_safe (dg_pct g) = true /\ forallb attrs_safe (dg_nodes g) = true /\
+  edge_ids_nonneg g = true /\ edges_within_nodes g = true /\ dot_valid (compose_dot g) = true.
+Proof. vm_compute. repeat split; reflexivity. Qed.
